@@ -433,6 +433,9 @@ pub(crate) fn parse_varname(ctx: &mut EvalPtr) -> Result<Word, Exception> {
             // Array; parse out the word that evaluates to the index.
             ctx.skip();
             let index = parse_bare_word(ctx, true)?;
+            if !ctx.next_is(')') {
+                return molt_err!("missing )");
+            }
             ctx.skip_char(')');
             Ok(Word::ArrayRef(name, Box::new(index)))
         }
